@@ -204,3 +204,89 @@ Proof.
       - intros s Hs. apply eddm_step1; assumption. }
     destruct H as (_ & _ & _ & _ & _ & _ & H1 & H2). split; assumption.
 Qed.
+
+(* ====================================================================== ECDD *)
+
+Definition ecdd_CInv (c : ecdd_cfg RealA) (k : R) (s : ecdd_st RealA) : Prop :=
+  mean_const k (cp s) /\ e_alpha (cz s) = ec_lambda c /\ e_1ma (cz s) = 1 - ec_lambda c /\
+  e_mean (cz s) <= k /\ cdrift s = false /\ cwarning s = false.
+
+Lemma ecdd_zvar_const (c : ecdd_cfg RealA) (a : R) n (k : R) :
+  (k = 0 \/ k = 1) -> ecdd_zvar c a n k = 0.
+Proof.
+  intros Hk. unfold ecdd_zvar, one. cbn [sub mul div sqrt ofZ RealA num].
+  replace (k * (1 - k)) with 0 by (destruct Hk; subst; ring).
+  rewrite Rmult_0_r. apply sqrt_0.
+Qed.
+
+Lemma ecdd_check_const (zm k cl wl : R) : zm <= k -> ecdd_check (A:=RealA) zm k cl 0 wl = false.
+Proof.
+  intros H. unfold ecdd_check. cbn [add mul ltb RealA num]. apply Rltb_false. lra.
+Qed.
+
+Lemma ecdd_constant : forall (c : ecdd_cfg RealA) (k : R) ops,
+  (k = 0 \/ k = 1) -> 0 <= ec_lambda c <= 1 -> 0 < ec_warn c -> const_ops k ops ->
+  cdrift (exec (ECDDD RealA) c ops) = false /\ cwarning (exec (ECDDD RealA) c ops) = false.
+Proof.
+  intros c k ops Hk Hl Hw Hc.
+  assert (H : ecdd_CInv c k (exec (ECDDD RealA) c ops)).
+  { apply (const_invariant (ECDDD RealA) c k (ecdd_CInv c k)); [| | reflexivity | exact Hc].
+    - unfold ecdd_CInv. cbn [d_init ECDDD ecdd_init cp cz cdrift cwarning ewma_init e_alpha e_1ma e_mean].
+      split; [apply mean_const_init|]. unfold zero, one. cbn [sub ofZ RealA num].
+      repeat split; auto. destruct Hk; subst; lra.
+    - intros s (Hm & Hea & He1 & Hz & _ & _). cbn [d_step ECDDD]. unfold ecdd_step. cbv zeta.
+      destruct (mean_update_const k _ Hm) as [Hm' _].
+      pose proof (mean_const_update k _ Hm) as Hmc.
+      rewrite Hm'. rewrite (ecdd_zvar_const c _ _ k Hk).
+      assert (Hz' : e_mean (ewma_update (cz s) k) <= k).
+      { unfold ewma_update. cbn [e_mean add mul RealA num]. rewrite Hea, He1. nra. }
+      rewrite !(ecdd_check_const _ k _ _ Hz').
+      destruct (ec_min c <=? cn s + 1)%Z; unfold ecdd_CInv; cbn [cp cz cdrift cwarning];
+        (split; [exact Hmc|]); unfold ewma_update at 1 2; cbn [e_alpha e_1ma];
+        repeat split; auto. }
+  destruct H as (_ & _ & _ & _ & H1 & H2). split; assumption.
+Qed.
+
+(* ====================================================================== STEPD *)
+
+Lemma stepd_stat_none (n ct nw cw : Z) :
+  (ct = 0%Z \/ (ct = n /\ n <> 0%Z)) -> stepd_stat (A:=RealA) n ct nw cw = None.
+Proof.
+  intros H. unfold stepd_stat. cbv zeta. unfold one, zero.
+  cbn [add sub mul div sqrt eqb ofZ RealA num].
+  replace (IZR ct / IZR n * (1 - IZR ct / IZR n)) with 0.
+  - rewrite Rmult_0_l, sqrt_0.
+    replace (Reqb 0 0) with true by (symmetry; apply Reqb_true; reflexivity). reflexivity.
+  - destruct H as [-> | [-> Hn]].
+    + unfold Rdiv. ring.
+    + assert (IZR n <> 0) by (apply not_0_IZR; exact Hn).
+      replace (IZR n / IZR n) with 1 by (field; assumption). ring.
+Qed.
+
+Definition stepd_CInv (k : R) (s : stepd_st) : Prop :=
+  (0 <= sn s)%Z /\ scorrect s = (if Reqb k 0 then 0%Z else sn s) /\
+  sdrift s = false /\ swarning s = false.
+
+Lemma stepd_constant : forall (c : stepd_cfg RealA) (k : R) ops,
+  (k = 0 \/ k = 1) -> (1 <= sp_min c)%Z -> const_ops k ops ->
+  sdrift (exec (STEPDD RealA) c ops) = false /\ swarning (exec (STEPDD RealA) c ops) = false.
+Proof.
+  intros c k ops Hk Hmin Hc.
+  assert (H : stepd_CInv k (exec (STEPDD RealA) c ops)).
+  { apply (const_invariant (STEPDD RealA) c k (stepd_CInv k)); [| | reflexivity | exact Hc].
+    - unfold stepd_CInv. cbn [d_init STEPDD stepd_init sn scorrect sdrift swarning].
+      repeat split; auto; [lia | destruct (Reqb k 0); reflexivity].
+    - intros s (Hn & Hct & _ & _). cbn [d_step STEPDD]. unfold stepd_step. cbv zeta.
+      assert (Hct' : (scorrect s + b2z (truthy (A:=RealA) k))%Z
+                     = (if Reqb k 0 then 0%Z else (sn s + 1)%Z)).
+      { rewrite Hct. unfold truthy, zero. cbn [eqb ofZ RealA].
+        destruct (Reqb k 0); cbn [negb b2z]; lia. }
+      assert (Hnone : forall nw cw,
+                 stepd_stat (A:=RealA) (sn s + 1) (scorrect s + b2z (truthy (A:=RealA) k)) nw cw = None).
+      { intros nw cw. apply stepd_stat_none. rewrite Hct'.
+        destruct (Reqb k 0) eqn:E; [left; reflexivity | right; split; [reflexivity | lia]]. }
+      rewrite Hnone.
+      destruct (2 * sp_min c <=? sn s + 1)%Z; unfold stepd_CInv; cbn [sn scorrect sdrift swarning];
+        (split; [lia|]); (split; [exact Hct'|]); split; reflexivity. }
+  destruct H as (_ & _ & H1 & H2). split; assumption.
+Qed.
